@@ -8,19 +8,19 @@ CLAIMED = {
  "C01": ("ledger", "TLC model checking of Ledger.tla (Conservation, SiafundsConst, PoolCoversClaims) + TLC-simulated behaviours replayed block by block on the real ValidateBlock/ApplyBlock with store-vs-spec comparison",
          "The ledger equation, constant siafunds and exact claims are invariants of the transcribed consensus state machine, model-checked on bounded v2/v1 families; every simulated behaviour (all templates, value defects, three network shapes, reverts) is replayed on real signed and sealed blocks and after every block every unspent element, contract and the siafund pool of the real store (fed only by update diffs) equals the specification's state.",
          LEDGER_NOTE, "DESIGN.md 4.1, 5/C01"),
- "C02": ("ledger", "TLC model checking of NoDoubleUse on Ledger.tla + replay of TLC-generated second-use placements (same transaction, same block either version, ephemeral, earlier block with maintained proof, after revert) on the real ValidateBlock with accepted control blocks; spent-ID multiset check on every accepted history",
+ "C02": ("ledger", "TLC model checking of NoDoubleUse on Ledger.tla + replay of TLC-generated second-use placements (same transaction, same block either version, ephemeral, earlier block with maintained proof, after revert) on the real ValidateBlock with accepted control blocks; spent-ID multiset check on every accepted history; Positions.tla: the same parent at any two positions of a block (every pair of input positions of wide transactions, across two transactions, v1/v2/mixed, siacoins and siafunds) on real signed blocks",
          "NoDoubleUse is model-checked over the MidState mechanism; every generated doubled block is re-signed, re-sealed and must be rejected by the real code while its control is accepted; the multiset of spent IDs taken from real diffs has no repeats on any replayed history.",
          LEDGER_NOTE, "DESIGN.md 5/C02"),
  "C06": ("ledger", "TLC model checking of RevertInverse on Ledger.tla + TLC-simulated reorg schedules replayed on the real ApplyBlock/RevertBlock with snapshot, proof, diff-order and re-apply comparisons",
          "After every real RevertBlock of every generated reorg schedule: store == pre-apply snapshot == spec state, revert diffs == reversed apply diffs, every stored element verifies against the parent accumulator, re-apply is byte-identical. Found and fixed the v1 revise+prove defect.",
          LEDGER_NOTE, "DESIGN.md 5/C06"),
- "C08": ("ledger", "Boundary.tla (where each height/time rule flips) enumerated by TLC and executed case by case on real chains at bound-2..bound+2 over a configuration lattice + Ledger.tla timing-defect behaviours replayed on the real ValidateBlock",
+ "C08": ("ledger", "Boundary.tla (where each height/time rule flips) enumerated by TLC and executed case by case on real chains at bound-2..bound+2 over a configuration lattice (incl. empty files and contracts formed in the block that proves them) + Ledger.tla timing-defect behaviours replayed on the real ValidateBlock",
          "Every rule of the property (maturity, v1 unlock-condition and signature timelocks, v2 above/after/uc policies with parent height and strict median time, v1 window and v2 proof/expiration rules for formation, revision, proof, expiration, v1/v2 eras) is stated in Boundary.tla; every (rule, configuration, bound, offset) case is built on a real chain and the real verdict compared: rejected before the bound, accepted at it. Timing defects in simulated ledger behaviours add the in-block combinations (found and fixed the revised-window proof defect).",
          LEDGER_NOTE, "DESIGN.md 5/C08"),
  "C03": ("ledger", "Authorization.tla (coverage relation: which required signature binds which content; verdict table for every shape x single-point tampering) emitted by TLC and executed case by case on real chains with real keys, with re-signed controls; authorisation defects inside TLC-simulated Ledger behaviours",
          "For 24 shapes of signed transactions (v1 whole/partial/multisig/unknown-algorithm/siafund/revision/Foundation update; v2 public-key, unlock-conditions, threshold, hash-lock, height/time policies, siafund, contract formation, revision, renewal, attestation, Foundation update) every tampering of covered content, witnesses, claimed keys or policy gets the verdict the property demands on the real ValidateBlock; the untampered block and the re-signed control are accepted. Found the stale-keys renewal defect (fixed) and the unbound siafund claim address (known).",
          LEDGER_NOTE + " The byte-level signature pre-images are C12's subject.", "DESIGN.md 5/C03"),
- "C07": ("ledger", "TLC model checking of RevisionStep/NoDoubleUse on contract configurations of Ledger.tla + simulated and exhaustively enumerated contract life-cycles replayed on the real code with payout comparison; StorageProof.tla (tree, honest and dishonest proofs, transcribed verifiers) with every (leaves, challenged leaf, era/version, proof kind) executed on real chains; challenge index validated by TLC over BigNat",
+ "C07": ("ledger", "TLC model checking of RevisionStep/NoDoubleUse on contract configurations of Ledger.tla + simulated and exhaustively enumerated contract life-cycles replayed on the real code with payout comparison; StorageProof.tla (tree, honest and dishonest proofs, transcribed verifiers) with every (leaves, challenged leaf, era/version, proof kind) executed on real chains; transactions with several proofs (TxVerdict: every ordered list of file sizes, honest or with one altered proof, three eras); proofs built by rhp/v2 for files of whole sectors; challenge index validated by TLC over BigNat",
          "Payout outputs of every resolved contract equal those of its latest accepted revision, once; forbidden revisions, dishonest proofs and second resolutions are rejected; honest storage proofs are accepted in every era except the documented middle-era quirk, proofs of another leaf / altered data / wrong length are rejected; the challenged leaf is seed mod leaves. Found and fixed the v1 short-proof soundness defect.",
          LEDGER_NOTE, "DESIGN.md 4.6, 5/C07"),
  "C04": ("acc", "Membership.tla (Member(acc, e) <=> e is exactly a live leaf with its own path; probe catalogue over bounded forests incl. reverted-branch and never-created elements) model-checked; every TLC probe and reflection-derived field mutation asked of the real code through the shim, ValidateTransactionElements, ValidateV2Transaction, ValidateBlock supplements (five block forms, placements beside the genuine copy) and used parents, in-block parents (InBlock.tla: the shared id->index map of MidState) and history proofs of empty and non-empty files, on synthetic forests and on real ledger chains; TxnSound: the probe as first, middle and last parent of a multi-parent transaction and before/after genuine resolutions",
